@@ -149,14 +149,26 @@ def _state_flag_justifies(kv: Any, parse: ast.AST, sub: ast.Subscript) -> bool:
     while st is not None and not isinstance(st, ast.stmt):
         st = kv.parents.get(st)
     branch = kv.parents.get(st)
-    if not (isinstance(branch, ast.If) and st in branch.orelse and ast.unparse(branch.test) == 'block_line is BLOCK_LINE_SKIP'):
+
+    def is_test(t: ast.AST) -> Optional[Tuple[str, str]]:
+        # `<flag> is <CONST>` -> (flag, CONST)
+        if isinstance(t, ast.Compare) and len(t.ops) == 1 and isinstance(t.ops[0], ast.Is) and isinstance(t.left, ast.Name) and isinstance(t.comparators[0], ast.Name):
+            return t.left.id, t.comparators[0].id
+        return None
+    bt = is_test(branch.test) if isinstance(branch, ast.If) else None
+    if bt is None or st not in branch.orelse:
         return False
+    flag, k_skip = bt
     outer = kv.parents.get(branch)
     blk = getattr(outer, 'body', [])
     if branch not in blk:
         return False
-    none_raise = any(isinstance(p, ast.If) and ast.unparse(p.test) == 'block_line is BLOCK_LINE_NONE' and p.body and isinstance(p.body[-1], ast.Raise) for p in blk[:blk.index(branch)])
-    if not none_raise:
+    k_none = None
+    for p_ in blk[:blk.index(branch)]:
+        pt = is_test(p_.test) if isinstance(p_, ast.If) else None
+        if pt is not None and pt[0] == flag and pt[1] != k_skip and p_.body and isinstance(p_.body[-1], ast.Raise):
+            k_none = pt[1]
+    if k_none is None:
         return False
 
     def stores(stmts: Any) -> bool:
@@ -168,7 +180,8 @@ def _state_flag_justifies(kv: Any, parse: ast.AST, sub: ast.Subscript) -> bool:
             if isinstance(x, ast.If) and x.orelse and stores(x.body) and stores(x.orelse):
                 return True
         return False
-    sets = [a for a in ast.walk(parse) if isinstance(a, ast.Assign) and ast.unparse(a.value) == 'BLOCK_LINE_EXPECT' and any(dotted(t) == 'block_line' for t in a.targets)]
+    # every assignment of a third state (neither NONE nor SKIP) to the flag shares its statement list with a store into the list
+    sets = [a for a in ast.walk(parse) if isinstance(a, ast.Assign) and any(dotted(t) == flag for t in a.targets) and isinstance(a.value, ast.Name) and a.value.id not in (k_none, k_skip)]
     if not sets:
         return False
     for a in sets:
@@ -176,8 +189,13 @@ def _state_flag_justifies(kv: Any, parse: ast.AST, sub: ast.Subscript) -> bool:
         holder = next((b for b in (getattr(par, 'body', []), getattr(par, 'orelse', [])) if a in b), None)
         if holder is None or not stores(holder):
             return False
-    passthrough = any(isinstance(x, ast.If) and 'block_line is not BLOCK_LINE_NONE' in ast.unparse(x.test) and 'token_type is not NEWLINE' in ast.unparse(x.test) and x.body and isinstance(x.body[-1], ast.Raise)
-                      for x in ast.walk(parse))
+    # while the flag is not NONE only NEWLINE tokens get through
+    passthrough = False
+    for x in ast.walk(parse):
+        if isinstance(x, ast.If) and x.body and isinstance(x.body[-1], ast.Raise) and isinstance(x.test, ast.BoolOp) and isinstance(x.test.op, ast.And):
+            txt = [ast.unparse(v) for v in x.test.values]
+            if f'{flag} is not {k_none}' in txt and any(t.endswith('is not NEWLINE') or t.endswith('is not Token.NEWLINE') for t in txt):
+                passthrough = True
     return passthrough
 
 
